@@ -261,6 +261,28 @@ Proof.
   - intros k v Hk. apply lookup_update_other. apply lookup_update_other. exact Hk.
 Qed.
 
+(* the values SaxDocument holds for an element are COMPUTED values: a
+   declaration of the element's style attribute takes precedence over the
+   attribute of the same name (CSS cascade, SVG 1.1 6.4), which takes
+   precedence over the value inherited from the ancestors *)
+Lemma values_precedence (inh a st : dict) k :
+  lookup k (update (update inh a) st)
+  = match lookup k st with
+    | Some v => Some v
+    | None => match lookup k a with
+              | Some v => Some v
+              | None => lookup k inh
+              end
+    end.
+Proof.
+  destruct (lookup k st) as [v|] eqn:Es.
+  - apply lookup_update_other, Es.
+  - rewrite (lookup_update_miss _ _ _ Es).
+    destruct (lookup k a) as [v|] eqn:Ea.
+    + apply lookup_update_other, Ea.
+    + apply lookup_update_miss, Ea.
+Qed.
+
 (* ---- the style attribute ---- *)
 (* repaired: splitting the style attribute never raises *)
 Lemma style_assign_total c : f_style_skip c = true ->
